@@ -125,6 +125,7 @@ declarations:
     format:
       function_suffix: _mutable
 - decl: void takes(Cls *c, const Cls &d)
+- decl: int byVal(Cls c, int extra)
 - decl: Cls *findCls(int id)
 - decl: Cls *newCls(int id) +owner(caller)
 - decl: Cls &refCls(int id)
@@ -190,6 +191,7 @@ public:
     int which();
 };
 void takes(Cls *c, const Cls &d);
+int byVal(Cls c, int extra);
 Cls *findCls(int id);
 Cls *newCls(int id);
 Cls &refCls(int id);
@@ -231,6 +233,7 @@ const std::string &Cls::name() const { return m_name; }
 int Cls::which() const { vt_txt("RECV Cls::which-const this="); vt_i(m_id); vt_txt("\n"); return 1; }
 int Cls::which() { vt_txt("RECV Cls::which-mutable this="); vt_i(m_id); vt_txt("\n"); return 2; }
 void takes(Cls *c, const Cls &d) { vt_txt("RECV takes c="); vt_i(c->id()); vt_txt(" d="); vt_i(d.id()); vt_txt("\n"); }
+int byVal(Cls c, int extra) { vt_txt("RECV byVal c="); vt_i(c.id()); vt_txt(" extra="); vt_i(extra); vt_txt("\n"); return c.id() + extra; }
 static Cls *lib_objs[2];
 Cls *findCls(int id) { if (!lib_objs[0]) { lib_objs[0] = new Cls(100); lib_objs[1] = new Cls(101); } vt_txt("RECV findCls id="); vt_i(id); vt_txt("\n"); return lib_objs[id % 2]; }
 Cls &refCls(int id) { vt_txt("RECV refCls id="); vt_i(id); vt_txt("\n"); return *lib_objs[id % 2]; }
@@ -296,7 +299,7 @@ def scenario_case(args):
     if case:
         naming = args[1]
     d = {"T": T, "P": P, "ctor": NC("ctor", ""), "dtor": NC("dtor", ""), "id": NC("id", ""), "add": NC("add", ""), "twice": NC("twice", ""),
-         "rename": NC("rename", ""), "name": NC("name", ""), "whichc": NC("which", "_const"), "whichm": NC("which", "_mutable"), "takes": N("takes", ""), "find": N("findCls", ""), "new": N("newCls", ""), "ref": N("refCls", ""), "cref": N("crefCls", ""),
+         "rename": NC("rename", ""), "name": NC("name", ""), "whichc": NC("which", "_const"), "whichm": NC("which", "_mutable"), "takes": N("takes", ""), "byval": N("byVal", ""), "find": N("findCls", ""), "new": N("newCls", ""), "ref": N("refCls", ""), "cref": N("crefCls", ""),
          "val": N("valCls", ""), "next": N("nextColor", ""), "level": N("levelValue", ""), "over0": N("over", "_0"), "over1": N("over", "_1"), "pick0": N("pick", ""), "pick1": N("pick", "_both"), "dflt0": N("dflt", "_0"),
          "dflt1": N("dflt", "_1"), "tint": N("tmpl", "_int"), "tdbl": N("tmpl", "_double"), "w0": N("weigh", "_0"), "w1": N("weigh", "_1"), "order": N("order", ""), "nsf": NN("nsf", ""),
          "innerf": NI("innerf", "")}
@@ -311,6 +314,7 @@ int main(void) {
   printf("OBS names"); obs_z(%(name)s(&a)); obs_z(%(name)s(&b)); printf("\n");
   printf("OBS which"); obs_i(%(whichc)s(&a)); obs_i(%(whichm)s(&b)); obs_i(%(whichc)s(&b)); printf("\n");
   %(takes)s(&a, &b); %(takes)s(&b, &a);
+  printf("OBS byval"); obs_i(%(byval)s(a, 2)); obs_i(%(byval)s(b, -9)); printf("\n");
   %(find)s(0, &r); printf("OBS find"); obs_i(%(id)s(&r)); %(find)s(3, &r); obs_i(%(id)s(&r)); printf("\n");
   /* a class returned by reference is the library's own object: what is done through the handle is seen by the library */
   %(ref)s(0, &r); %(rename)s(&r, "zed"); %(find)s(0, &r); printf("OBS ref"); obs_z(%(name)s(&r)); %(cref)s(2, &r); obs_z(%(name)s(&r)); obs_i(%(id)s(&r)); printf("\n");
@@ -330,7 +334,7 @@ int main(void) {
 }
 """ % d
     open(os.path.join(out, "driver.c"), "w").write(drv)
-    exp_obs = ["OBS ids 5 9", "OBS add 8 13 4", "OBS twice 42", "OBS names 0:[] 3:[bee]", "OBS which 1 2 1", "OBS find 100 101", "OBS ref 3:[zed] 3:[zed] 100", "OBS new 7 8", "OBS val 8",
+    exp_obs = ["OBS ids 5 9", "OBS add 8 13 4", "OBS twice 42", "OBS names 0:[] 3:[bee]", "OBS which 1 2 1", "OBS byval 7 0", "OBS find 100 101", "OBS ref 3:[zed] 3:[zed] 100", "OBS new 7 8", "OBS val 8",
                "OBS color 3 4 0", "OBS level 110 100 101", "OBS dflt 32 34", "OBS tmpl 42 " + A.rnd(A.NATIVE["double"], 2.5),
                "OBS weigh %s %s" % (A.rnd(A.NATIVE["double"], 7.5), A.rnd(A.NATIVE["double"], 2e9)), "OBS ns 2 3"]
     D = A.NATIVE["double"]
@@ -338,6 +342,7 @@ int main(void) {
                 "RECV Cls::twice x=21", "RECV Cls::rename this=9 name=3:[bee]", "RECV Cls::rename this=5 name=0:[]",
                 "RECV Cls::which-const this=5", "RECV Cls::which-mutable this=9", "RECV Cls::which-const this=9",
                 "RECV takes c=5 d=9", "RECV takes c=9 d=5",
+                "RECV Cls::copy id=5", "RECV byVal c=5 extra=2", "RECV Cls::~Cls this=5", "RECV Cls::copy id=9", "RECV byVal c=9 extra=-9", "RECV Cls::~Cls this=9",
                 "RECV Cls::Cls id=100", "RECV Cls::Cls id=101", "RECV findCls id=0", "RECV findCls id=3",
                 "RECV refCls id=0", "RECV Cls::rename this=100 name=3:[zed]", "RECV findCls id=0", "RECV crefCls id=2",
                 "RECV newCls id=7", "RECV Cls::Cls id=7", "RECV Cls::add this=7 x=1", "RECV Cls::~Cls this=7",
